@@ -97,3 +97,33 @@ Example ex_batch_compressed :
   | inl _ => False
   end.
 Proof. vm_compute. split; reflexivity. Qed.
+
+(* ---------------------------------------------------------------- legacy message sets *)
+From SV Require Import Wire.MsetProofs.
+Definition ex_inner : mblocks :=
+  MCons 0 (mkMsg 0 false None (Some [97]) None 1 1600000000999000000) (MCons 1 (mkMsg 0 true (Some []) None None 0 ZERO_TIME) MNil).
+Definition ex_inner_bytes : list Z :=
+  match mblocks_ops ex_compress ex_inner with inr ops => match spec_bytes ops with inr b => b | _ => [] end | _ => [] end.
+Definition ex_set : mblocks :=
+  MCons 7 (mkMsg 0 false (Some [107]) (Some []) None 0 ZERO_TIME)
+  (MCons 8 (mkMsg 1 false None (Some ex_inner_bytes) None 1 1600000001000000000) MNil).
+
+Example ex_set_decodes :
+  match mblocks_ops ex_compress ex_set with
+  | inr ops => match encode ops with
+               | EncOk bs =>
+                 match mset_decode ex_compress 3 (new_dec bs) with
+                 | Ok (mkSet false false (MCons 7 _ (MCons 8 (mkMsg 1 false None (Some v) (Some (mkSet false false inner)) 1 ts) MNil))) d =>
+                   v = ex_inner_bytes /\ inner = norm_plain ex_inner /\ off d = len bs /\ ts = 1600000001000000000
+                 | _ => False end
+               | _ => False end
+  | inl _ => False
+  end.
+Proof. vm_compute. repeat split; reflexivity. Qed.
+Example ex_plain : plain_blocks ex_inner.
+Proof.
+  unfold ex_inner. apply pl_cons; [unfold in_i64, two63; lia | | reflexivity |].
+  - cbn [msg_ok]. unfold ts_ok, MAXLEN, two63. cbn [olist]. repeat split; try lia; try (now right); try (intros _; right; lia); cbn; lia.
+  - apply pl_cons; [unfold in_i64, two63; lia | | reflexivity | apply pl_nil].
+    cbn [msg_ok]. unfold MAXLEN. cbn [olist]. repeat split; try lia; try (now left); try (intros H; discriminate); cbn; lia.
+Qed.
